@@ -21,6 +21,15 @@ pub fn has_comment_children(node: &SyntaxNode) -> bool {
     node.children().any(is_comment_node)
 }
 
+/// Whether the last token of the node is a line-break backslash.
+/// Such a backslash needs whitespace after it, otherwise it escapes the next character.
+pub fn ends_with_linebreak(node: &SyntaxNode) -> bool {
+    match node.children().last() {
+        Some(last) => ends_with_linebreak(last),
+        None => node.kind() == SyntaxKind::Linebreak,
+    }
+}
+
 pub(super) fn indent_func_name(node: FuncCall<'_>) -> Option<&str> {
     node.callee()
         .to_untyped()
